@@ -87,21 +87,139 @@ theorem byKey_sorted (conns : List Node) : (byKey conns).Pairwise (fun a b => a.
     (by intro a b; simp; exact String.le_total _ _) conns
   exact this.imp (fun {a b} h => by simpa using h)
 
-/-- C50 `snapshot_window`: a key contributes an average only if it has a point recorded within the last 10 s. -/
+/-! ### the recorder: what `RecordLatency` retains and when a key counts as measured -/
+
+/-- the last `cap + 1` elements -/
+def lastN (cap : Nat) (l : List Sample) : List Sample := l.drop (l.length - (cap + 1))
+
+def accepted (ss : List Sample) : List Sample := ss.filter (fun s => decide (0 ≤ s.val))
+
+theorem foldl_record (cap : Nat) (ss f : List Sample) (hf : accepted f = f) :
+    ss.foldl (record cap) (lastN cap f) = lastN cap (f ++ accepted ss) := by
+  induction ss generalizing f with
+  | nil => simp [accepted]
+  | cons s ss ih =>
+    simp only [List.foldl_cons]
+    by_cases hs : s.val < 0
+    · have : accepted (s :: ss) = accepted ss := by
+        simp [accepted, List.filter_cons]; omega
+      rw [this]
+      simp only [record, hs, if_true]
+      exact ih f hf
+    · have hacc : accepted (s :: ss) = s :: accepted ss := by
+        simp [accepted, List.filter_cons]; omega
+      have hstep : record cap (lastN cap f) s = lastN cap (f ++ [s]) := by
+        simp only [record, hs, if_false, lastN, List.length_drop, List.length_append, List.length_cons,
+          List.length_nil]
+        by_cases hl : f.length ≤ cap
+        · have h1 : f.length - (cap + 1) = 0 := by omega
+          have h2 : f.length + (0 + 1) - (cap + 1) = 0 := by omega
+          have h3 : ¬ (f.length - 0 > cap) := by omega
+          simp [h1, h2]
+          intro h; omega
+        · have h3 : f.length - (f.length - (cap + 1)) > cap := by omega
+          rw [if_pos h3, List.drop_drop]
+          have h4 : f.length + (0 + 1) - (cap + 1) ≤ f.length := by omega
+          rw [List.drop_append_of_le_length h4]
+          congr 2
+          omega
+      rw [hstep, hacc]
+      have hf' : accepted (f ++ [s]) = f ++ [s] := by
+        have : 0 ≤ s.val := by omega
+        simp only [accepted, List.filter_append] at hf ⊢
+        rw [hf]; simp [this]
+      have := ih (f ++ [s]) hf'
+      simpa [List.append_assoc] using this
+
+/-- C50 `retained_last_samples`: after any sequence of `RecordLatency` calls the recorder holds exactly the last
+`cap + 1` accepted (non-negative) samples, each with the time of ITS OWN recording. -/
+theorem retained_last_samples (cap : Nat) (ss : List Sample) :
+    recordAll cap ss = lastN cap (accepted ss) := by
+  have := foldl_record cap ss [] rfl
+  simpa [recordAll, lastN] using this
+
+theorem snapAvg_isSome (data : List Sample) :
+    (snapAvg data).isSome = data.any (fun p => decide (p.age ≤ windowMs)) := by
+  unfold snapAvg
+  simp only
+  split
+  · next h =>
+    simp only [List.isEmpty_iff, List.map_eq_nil_iff, List.filter_eq_nil_iff] at h
+    simp only [Option.isSome_none]
+    symm
+    rw [Bool.eq_false_iff]
+    intro hany
+    obtain ⟨x, hx, hd⟩ := List.any_eq_true.mp hany
+    exact h x hx hd
+  · next h =>
+    simp only [List.isEmpty_iff, List.map_eq_nil_iff, List.filter_eq_nil_iff] at h
+    simp only [Option.isSome_some]
+    symm
+    rw [List.any_eq_true]
+    exact Classical.byContradiction fun hc => h (fun x hx hd => hc ⟨x, hx, hd⟩)
+
+/-- C50 `latest_sample_measured`: a key whose most recent accepted sample was recorded within the window is
+measured — however many samples were recorded before it (the window never "freezes"). -/
+theorem latest_sample_measured (cap : Nat) (ss : List Sample) (s : Sample)
+    (hlast : (accepted ss).getLast? = some s) (hrecent : s.age ≤ windowMs) :
+    (snapAvg (recordAll cap ss)).isSome = true := by
+  rw [snapAvg_isSome, retained_last_samples, List.any_eq_true]
+  refine ⟨s, ?_, by simpa using hrecent⟩
+  have hne : accepted ss ≠ [] := by intro h; rw [h] at hlast; cases hlast
+  have hmem : (lastN cap (accepted ss)).getLast? = some s := by
+    unfold lastN
+    rw [List.getLast?_drop]
+    have : ¬ (accepted ss).length ≤ (accepted ss).length - (cap + 1) := by
+      have := List.length_pos_iff.mpr hne; omega
+    simp [this, hlast]
+  exact List.mem_of_getLast? hmem
+
+/-- ages non-increasing in recording order: time only moves forward -/
+def Chrono (l : List Sample) : Prop := l.Pairwise (fun a b => b.age ≤ a.age)
+
+/-- C50 `measured_iff_recent_sample`: when samples are recorded as time passes, a key is measured (its snapshot
+is non-nil) if and only if SOME accepted sample was recorded within the last 10 s. -/
+theorem measured_iff_recent_sample (cap : Nat) (ss : List Sample) (hc : Chrono (accepted ss)) :
+    (snapAvg (recordAll cap ss)).isSome = true ↔ ∃ s ∈ ss, 0 ≤ s.val ∧ s.age ≤ windowMs := by
+  constructor
+  · intro h
+    rw [snapAvg_isSome, retained_last_samples, List.any_eq_true] at h
+    obtain ⟨x, hx, hd⟩ := h
+    have hx' : x ∈ accepted ss := List.mem_of_mem_drop hx
+    have := List.mem_filter.mp hx'
+    exact ⟨x, this.1, by simpa using this.2, by simpa using hd⟩
+  · rintro ⟨s, hs, hv, ha⟩
+    have hmem : s ∈ accepted ss := List.mem_filter.mpr ⟨hs, by simpa using hv⟩
+    have hne : accepted ss ≠ [] := List.ne_nil_of_mem hmem
+    obtain ⟨t, ht⟩ : ∃ t, (accepted ss).getLast? = some t :=
+      ⟨(accepted ss).getLast hne, List.getLast?_eq_some_getLast hne⟩
+    refine latest_sample_measured cap ss t ht ?_
+    -- the last sample is at least as recent as `s`
+    obtain ⟨ys, hsplit⟩ := List.getLast?_eq_some_iff.mp ht
+    rw [hsplit] at hmem hc
+    rcases List.mem_append.mp hmem with h1 | h1
+    · have := (List.pairwise_append.mp hc).2.2 s h1 t (by simp)
+      omega
+    · simp at h1; subst h1; exact ha
+
+/-- C50 `snapshot_window`: a key contributes an average only if it has an accepted sample recorded within the
+last 10 s, and then the average is that of the retained recent samples. -/
 theorem snapshot_window (tab : List Entry) (k : String) (v : Int) (h : snapshot tab k = some v) :
-    ∃ e ∈ tab, e.mkey = k ∧ (∃ a ∈ e.ages, a ≤ 10000) ∧ e.avg = some v := by
+    ∃ e ∈ tab, e.mkey = k ∧ (∃ s ∈ e.samples, 0 ≤ s.val ∧ s.age ≤ 10000) ∧
+      snapAvg (lastN capacity (accepted e.samples)) = some v := by
   unfold snapshot at h
   cases hf : tab.find? (·.mkey == k) with
   | none => rw [hf] at h; cases h
   | some e =>
     rw [hf] at h; simp only at h
-    split at h
-    · next hany =>
-      refine ⟨e, List.mem_of_find?_eq_some hf, ?_, ?_, h⟩
-      · have := List.find?_some hf; simpa using this
-      · obtain ⟨x, hx, hd⟩ := List.any_eq_true.mp hany
-        exact ⟨x, hx, by simpa [windowMs] using of_decide_eq_true hd⟩
-    · cases h
+    refine ⟨e, List.mem_of_find?_eq_some hf, ?_, ?_, ?_⟩
+    · have := List.find?_some hf; simpa using this
+    · have hs : (snapAvg (recordAll capacity e.samples)).isSome = true := by rw [h]; rfl
+      rw [snapAvg_isSome, retained_last_samples, List.any_eq_true] at hs
+      obtain ⟨x, hx, hd⟩ := hs
+      have := List.mem_filter.mp (List.mem_of_mem_drop hx)
+      exact ⟨x, this.1, by simpa using this.2, by simpa [windowMs] using of_decide_eq_true hd⟩
+    · rw [← retained_last_samples]; exact h
 
 /-! ### non-vacuity -/
 section NonVacuity
@@ -109,8 +227,8 @@ def n1 : Node := ⟨1, "a", "10.0.0.1:1", false⟩
 def n2 : Node := ⟨2, "b", "10.0.0.2:1", false⟩
 def n3 : Node := ⟨3, "c", "10.0.0.3:1", true⟩
 def n4 : Node := ⟨4, "d", "10.0.0.4:1", false⟩
-def tab : List Entry := [⟨"10.0.0.1:1/PHY", [100, 20000], some 5⟩, ⟨"10.0.0.2:1/PHY", [3000], some 9⟩,
-  ⟨"10.0.0.3:1/-1", [20000], some 7⟩, ⟨"10.0.0.4:1/PHY", [1], some 1⟩]
+def tab : List Entry := [⟨"10.0.0.1:1/PHY", [⟨20000, 50⟩, ⟨100, 5⟩], some 5⟩, ⟨"10.0.0.2:1/PHY", [⟨3000, 9⟩], some 9⟩,
+  ⟨"10.0.0.3:1/-1", [⟨20000, 7⟩], none⟩, ⟨"10.0.0.4:1/PHY", [⟨1, 1⟩], some 1⟩]
 def lk (n : Node) : Option Int := snapshot tab (mkey n)
 -- n3's only point is stale: unmeasured although the table holds an average
 example : lk n1 = some 5 ∧ lk n2 = some 9 ∧ lk n3 = none ∧ lk n4 = some 1 := by decide
@@ -123,6 +241,15 @@ example : connected [n1, n2, n3, n4] true lk = [n1, n2, n3] := by
 /-- hypotheses of `ties_keep_map_order` are satisfiable -/
 example : [n1, n2].Sublist (firstThree [n1, n2, n3, n4]) ∧ less lk n2 n1 = false := by
   rw [ex_first]; decide
+/-- a long-lived key: 30 old samples (value 50), then 3 recent ones (value 7): more than the 21 retained points;
+it is measured, with the average of the recent samples only -/
+def longLived : List Sample := (List.replicate 30 ⟨30000, 50⟩) ++ [⟨1, -4⟩] ++ List.replicate 3 ⟨100, 7⟩
+example : snapAvg (recordAll capacity longLived) = some 7 := by decide +kernel
+example : (recordAll capacity longLived).length = 21 := by decide +kernel
+/-- hypotheses of `latest_sample_measured` / `measured_iff_recent_sample` are satisfiable -/
+example : Chrono (accepted longLived) ∧ (accepted longLived).getLast? = some ⟨100, 7⟩ := by
+  refine ⟨?_, by decide +kernel⟩
+  unfold Chrono; decide +kernel
 end NonVacuity
 
 end Specter.C50
